@@ -207,11 +207,11 @@ fn collisions(s1: Square, rook1: bool, s2: Square, rook2: bool) {
     let o2 = Bitboard::new(kani::any());
     let i1 = if rook1 { table_index_rook(s1, o1) } else { table_index_bishop(s1, o1) };
     let i2 = if rook2 { table_index_rook(s2, o2) } else { table_index_bishop(s2, o2) };
-    kani::assume(i1 == i2);
     kani::cover!(o1 != o2);
     let w1 = if rook1 { attacks::generate_rook_attacks(s1, o1) } else { attacks::generate_bishop_attacks(s1, o1) };
     let w2 = if rook2 { attacks::generate_rook_attacks(s2, o2) } else { attacks::generate_bishop_attacks(s2, o2) };
-    assert!(w1 == w2);
+    // users of the shared table may only collide constructively (equal slot => equal attack set)
+    assert!(i1 != i2 || w1 == w2);
 }
 
 // ---- quick tier: the same collision contract split per rank of the first square (8 + 8 + 8 jobs run 16-wide) ----
@@ -241,6 +241,201 @@ macro_rules! coll_cross_rank {
         }
     };
 }
+
+
+// ---- generated: per-rank instances for the quick tier ----
+//@ obligation: C07.magic.collisions_rook_same.rank1
+//@ domain: complete
+//@ harness: vk_c07_coll_rook_same_r0
+//@ functions: chess/movegen/tables/magics.rs::table_index_rook
+//@ timeout: 900
+//@ mem_gb: 3
+//@ note: constructive collisions only, rook square on rank 1 (8 squares x 2^64 x 2^64 occupancies)
+coll_same_rank!(vk_c07_coll_rook_same_r0, true, 0);
+//@ obligation: C07.magic.collisions_rook_same.rank2
+//@ domain: complete
+//@ harness: vk_c07_coll_rook_same_r1
+//@ functions: chess/movegen/tables/magics.rs::table_index_rook
+//@ timeout: 900
+//@ mem_gb: 3
+//@ note: constructive collisions only, rook square on rank 2 (8 squares x 2^64 x 2^64 occupancies)
+coll_same_rank!(vk_c07_coll_rook_same_r1, true, 1);
+//@ obligation: C07.magic.collisions_rook_same.rank3
+//@ domain: complete
+//@ harness: vk_c07_coll_rook_same_r2
+//@ functions: chess/movegen/tables/magics.rs::table_index_rook
+//@ timeout: 900
+//@ mem_gb: 3
+//@ note: constructive collisions only, rook square on rank 3 (8 squares x 2^64 x 2^64 occupancies)
+coll_same_rank!(vk_c07_coll_rook_same_r2, true, 2);
+//@ obligation: C07.magic.collisions_rook_same.rank4
+//@ domain: complete
+//@ harness: vk_c07_coll_rook_same_r3
+//@ functions: chess/movegen/tables/magics.rs::table_index_rook
+//@ timeout: 900
+//@ mem_gb: 3
+//@ note: constructive collisions only, rook square on rank 4 (8 squares x 2^64 x 2^64 occupancies)
+coll_same_rank!(vk_c07_coll_rook_same_r3, true, 3);
+//@ obligation: C07.magic.collisions_rook_same.rank5
+//@ domain: complete
+//@ harness: vk_c07_coll_rook_same_r4
+//@ functions: chess/movegen/tables/magics.rs::table_index_rook
+//@ timeout: 900
+//@ mem_gb: 3
+//@ note: constructive collisions only, rook square on rank 5 (8 squares x 2^64 x 2^64 occupancies)
+coll_same_rank!(vk_c07_coll_rook_same_r4, true, 4);
+//@ obligation: C07.magic.collisions_rook_same.rank6
+//@ domain: complete
+//@ harness: vk_c07_coll_rook_same_r5
+//@ functions: chess/movegen/tables/magics.rs::table_index_rook
+//@ timeout: 900
+//@ mem_gb: 3
+//@ note: constructive collisions only, rook square on rank 6 (8 squares x 2^64 x 2^64 occupancies)
+coll_same_rank!(vk_c07_coll_rook_same_r5, true, 5);
+//@ obligation: C07.magic.collisions_rook_same.rank7
+//@ domain: complete
+//@ harness: vk_c07_coll_rook_same_r6
+//@ functions: chess/movegen/tables/magics.rs::table_index_rook
+//@ timeout: 900
+//@ mem_gb: 3
+//@ note: constructive collisions only, rook square on rank 7 (8 squares x 2^64 x 2^64 occupancies)
+coll_same_rank!(vk_c07_coll_rook_same_r6, true, 6);
+//@ obligation: C07.magic.collisions_rook_same.rank8
+//@ domain: complete
+//@ harness: vk_c07_coll_rook_same_r7
+//@ functions: chess/movegen/tables/magics.rs::table_index_rook
+//@ timeout: 900
+//@ mem_gb: 3
+//@ note: constructive collisions only, rook square on rank 8 (8 squares x 2^64 x 2^64 occupancies)
+coll_same_rank!(vk_c07_coll_rook_same_r7, true, 7);
+//@ obligation: C07.magic.collisions_bishop_same.rank1
+//@ domain: complete
+//@ harness: vk_c07_coll_bishop_same_r0
+//@ functions: chess/movegen/tables/magics.rs::table_index_bishop
+//@ timeout: 900
+//@ mem_gb: 3
+//@ note: constructive collisions only, bishop square on rank 1 (8 squares x 2^64 x 2^64 occupancies)
+coll_same_rank!(vk_c07_coll_bishop_same_r0, false, 0);
+//@ obligation: C07.magic.collisions_bishop_same.rank2
+//@ domain: complete
+//@ harness: vk_c07_coll_bishop_same_r1
+//@ functions: chess/movegen/tables/magics.rs::table_index_bishop
+//@ timeout: 900
+//@ mem_gb: 3
+//@ note: constructive collisions only, bishop square on rank 2 (8 squares x 2^64 x 2^64 occupancies)
+coll_same_rank!(vk_c07_coll_bishop_same_r1, false, 1);
+//@ obligation: C07.magic.collisions_bishop_same.rank3
+//@ domain: complete
+//@ harness: vk_c07_coll_bishop_same_r2
+//@ functions: chess/movegen/tables/magics.rs::table_index_bishop
+//@ timeout: 900
+//@ mem_gb: 3
+//@ note: constructive collisions only, bishop square on rank 3 (8 squares x 2^64 x 2^64 occupancies)
+coll_same_rank!(vk_c07_coll_bishop_same_r2, false, 2);
+//@ obligation: C07.magic.collisions_bishop_same.rank4
+//@ domain: complete
+//@ harness: vk_c07_coll_bishop_same_r3
+//@ functions: chess/movegen/tables/magics.rs::table_index_bishop
+//@ timeout: 900
+//@ mem_gb: 3
+//@ note: constructive collisions only, bishop square on rank 4 (8 squares x 2^64 x 2^64 occupancies)
+coll_same_rank!(vk_c07_coll_bishop_same_r3, false, 3);
+//@ obligation: C07.magic.collisions_bishop_same.rank5
+//@ domain: complete
+//@ harness: vk_c07_coll_bishop_same_r4
+//@ functions: chess/movegen/tables/magics.rs::table_index_bishop
+//@ timeout: 900
+//@ mem_gb: 3
+//@ note: constructive collisions only, bishop square on rank 5 (8 squares x 2^64 x 2^64 occupancies)
+coll_same_rank!(vk_c07_coll_bishop_same_r4, false, 4);
+//@ obligation: C07.magic.collisions_bishop_same.rank6
+//@ domain: complete
+//@ harness: vk_c07_coll_bishop_same_r5
+//@ functions: chess/movegen/tables/magics.rs::table_index_bishop
+//@ timeout: 900
+//@ mem_gb: 3
+//@ note: constructive collisions only, bishop square on rank 6 (8 squares x 2^64 x 2^64 occupancies)
+coll_same_rank!(vk_c07_coll_bishop_same_r5, false, 5);
+//@ obligation: C07.magic.collisions_bishop_same.rank7
+//@ domain: complete
+//@ harness: vk_c07_coll_bishop_same_r6
+//@ functions: chess/movegen/tables/magics.rs::table_index_bishop
+//@ timeout: 900
+//@ mem_gb: 3
+//@ note: constructive collisions only, bishop square on rank 7 (8 squares x 2^64 x 2^64 occupancies)
+coll_same_rank!(vk_c07_coll_bishop_same_r6, false, 6);
+//@ obligation: C07.magic.collisions_bishop_same.rank8
+//@ domain: complete
+//@ harness: vk_c07_coll_bishop_same_r7
+//@ functions: chess/movegen/tables/magics.rs::table_index_bishop
+//@ timeout: 900
+//@ mem_gb: 3
+//@ note: constructive collisions only, bishop square on rank 8 (8 squares x 2^64 x 2^64 occupancies)
+coll_same_rank!(vk_c07_coll_bishop_same_r7, false, 7);
+//@ obligation: C07.magic.collisions_cross.rank1
+//@ domain: complete
+//@ harness: vk_c07_coll_cross_r0
+//@ functions: chess/movegen/tables/magics.rs::table_index_rook, chess/movegen/tables/magics.rs::table_index_bishop
+//@ timeout: 1500
+//@ mem_gb: 3
+//@ note: two different (kind, square) users of the shared table, the first on rank 1: equal slot => equal attack set
+coll_cross_rank!(vk_c07_coll_cross_r0, 0);
+//@ obligation: C07.magic.collisions_cross.rank2
+//@ domain: complete
+//@ harness: vk_c07_coll_cross_r1
+//@ functions: chess/movegen/tables/magics.rs::table_index_rook, chess/movegen/tables/magics.rs::table_index_bishop
+//@ timeout: 1500
+//@ mem_gb: 3
+//@ note: two different (kind, square) users of the shared table, the first on rank 2: equal slot => equal attack set
+coll_cross_rank!(vk_c07_coll_cross_r1, 1);
+//@ obligation: C07.magic.collisions_cross.rank3
+//@ domain: complete
+//@ harness: vk_c07_coll_cross_r2
+//@ functions: chess/movegen/tables/magics.rs::table_index_rook, chess/movegen/tables/magics.rs::table_index_bishop
+//@ timeout: 1500
+//@ mem_gb: 3
+//@ note: two different (kind, square) users of the shared table, the first on rank 3: equal slot => equal attack set
+coll_cross_rank!(vk_c07_coll_cross_r2, 2);
+//@ obligation: C07.magic.collisions_cross.rank4
+//@ domain: complete
+//@ harness: vk_c07_coll_cross_r3
+//@ functions: chess/movegen/tables/magics.rs::table_index_rook, chess/movegen/tables/magics.rs::table_index_bishop
+//@ timeout: 1500
+//@ mem_gb: 3
+//@ note: two different (kind, square) users of the shared table, the first on rank 4: equal slot => equal attack set
+coll_cross_rank!(vk_c07_coll_cross_r3, 3);
+//@ obligation: C07.magic.collisions_cross.rank5
+//@ domain: complete
+//@ harness: vk_c07_coll_cross_r4
+//@ functions: chess/movegen/tables/magics.rs::table_index_rook, chess/movegen/tables/magics.rs::table_index_bishop
+//@ timeout: 1500
+//@ mem_gb: 3
+//@ note: two different (kind, square) users of the shared table, the first on rank 5: equal slot => equal attack set
+coll_cross_rank!(vk_c07_coll_cross_r4, 4);
+//@ obligation: C07.magic.collisions_cross.rank6
+//@ domain: complete
+//@ harness: vk_c07_coll_cross_r5
+//@ functions: chess/movegen/tables/magics.rs::table_index_rook, chess/movegen/tables/magics.rs::table_index_bishop
+//@ timeout: 1500
+//@ mem_gb: 3
+//@ note: two different (kind, square) users of the shared table, the first on rank 6: equal slot => equal attack set
+coll_cross_rank!(vk_c07_coll_cross_r5, 5);
+//@ obligation: C07.magic.collisions_cross.rank7
+//@ domain: complete
+//@ harness: vk_c07_coll_cross_r6
+//@ functions: chess/movegen/tables/magics.rs::table_index_rook, chess/movegen/tables/magics.rs::table_index_bishop
+//@ timeout: 1500
+//@ mem_gb: 3
+//@ note: two different (kind, square) users of the shared table, the first on rank 7: equal slot => equal attack set
+coll_cross_rank!(vk_c07_coll_cross_r6, 6);
+//@ obligation: C07.magic.collisions_cross.rank8
+//@ domain: complete
+//@ harness: vk_c07_coll_cross_r7
+//@ functions: chess/movegen/tables/magics.rs::table_index_rook, chess/movegen/tables/magics.rs::table_index_bishop
+//@ timeout: 1500
+//@ mem_gb: 3
+//@ note: two different (kind, square) users of the shared table, the first on rank 8: equal slot => equal attack set
+coll_cross_rank!(vk_c07_coll_cross_r7, 7);
 
 //@ obligation: C07.canary.magics
 //@ canary: true
